@@ -149,10 +149,12 @@ type variant struct {
 	ProbeNames []string `json:"probe_names,omitempty"`
 	// DirBuf: buf_len of the priming / probing fd_readdir calls (default 512).
 	DirBuf uint32 `json:"dir_buf,omitempty"`
+	// ProbeOffsets: the post-history probe also issues fd_pread at these offsets on every regular-file descriptor.
+	ProbeOffsets []int64 `json:"probe_offsets,omitempty"`
 }
 
 func (v variant) with(base variant) variant {
-	v.ProbeNames, v.DirBuf = base.ProbeNames, base.DirBuf
+	v.ProbeNames, v.DirBuf, v.ProbeOffsets = base.ProbeNames, base.DirBuf, base.ProbeOffsets
 	return v
 }
 
@@ -380,6 +382,11 @@ func (w *worker) execute(hist []Op, verbose bool, v variant) (r execResult) {
 		probes = append(probes, Op{K: "fd_tell", Fd: fd}, Op{K: "fd_filestat_get", Fd: fd})
 		if e := m.fds[fd]; e != nil && e.ino.dir {
 			probes = append(probes, Op{K: "fd_readdir", Fd: fd, Len: dirBuf})
+		}
+		if e := m.fds[fd]; e != nil && !e.ino.dir {
+			for _, off := range v.ProbeOffsets {
+				probes = append(probes, Op{K: "fd_pread", Fd: fd, Off: off})
+			}
 		}
 	}
 	for _, n := range append(append([]string{}, names...), v.ProbeNames...) {
@@ -656,6 +663,7 @@ func main() {
 	t0 := time.Now()
 	st := fsBFS(run, alphabet(), variant{}, "", depth, deadline, outcomes, samples)
 	nm := namesExplore(run, outcomes, samples)
+	of := offsetsExplore(run, outcomes, samples)
 	dr := driftExplore(run, outcomes)
 	wd := wideExplore(run, outcomes)
 	t1 := time.Now()
@@ -669,19 +677,21 @@ func main() {
 		depths = append(depths, l)
 	}
 	run.Finish(fw.Coverage{
-		Evaluations:     st.transitions + st.primed + st.tableRuns + nm.executions + dr.histories + wd.words + rd.sequences + rd.mutated,
-		DistinctNontriv: st.states - 1 + nm.states + wd.states + rd.sequences + rd.mutated,
+		Evaluations:     st.transitions + st.primed + st.tableRuns + nm.executions + of.executions + dr.histories + wd.words + rd.sequences + rd.mutated,
+		DistinctNontriv: st.states - 1 + nm.states + of.states + wd.states + rd.sequences + rd.mutated,
 		States:          st.states, Transitions: st.transitions, TracesValidated: st.transitions,
-		Rule:    "fs: distinct canonical reference-model states (tree+contents, descriptor table with inode identity, offsets, append/write flags) other than the initial one, each reached by executing its shortest history on the real WASI implementation; readdir: distinct (directory, buf_len, cookie sequence) call sequences, each executed on a fresh directory descriptor; wide-table: distinct sets of open descriptor numbers reached from the N-descriptor tables; readdir-mutation: distinct (directory, buf_len, traversal prefix, mutation) cases",
-		Samples: samples.List(), Exhaustive: st.exhaustive && rd.exhaustive, Outcomes: outcomes.Map(),
+		Rule:    "fs: distinct canonical reference-model states (tree+contents, descriptor table with inode identity, offsets, append/write flags) other than the initial one, each reached by executing its shortest history on the real WASI implementation; readdir: distinct (directory, buf_len, cookie sequence) call sequences, each executed on a fresh directory descriptor; wide-table: distinct sets of open descriptor numbers reached from the N-descriptor tables; names / wide offsets: distinct model states of those BFS families; readdir-mutation: distinct (directory, buf_len, traversal prefix, mutation) cases",
+		Samples: samples.List(), Exhaustive: st.exhaustive && of.exhaustive && rd.exhaustive, Outcomes: outcomes.Map(),
 		Bounds: map[string]any{
 			"fs_alphabet": len(alphabet()), "fs_depth": depth, "fs_per_depth": depths,
 			"fs_names": names, "fs_fds": "3(preopen)..6", "fs_data": []string{"", "xy", "wazero"},
-			"wide_table": map[string]any{"N": wideNs, "numbers": "4,5,62..66,126..129,N+3,N+4", "depth": 2, "per_N": wd.perN},
-			"readdir":    rd.bounds, "fs_host_filesystem": fastFS, "readdir_host_filesystem": tmpFS,
+			"wide_table":   map[string]any{"N": wideNs, "numbers": "4,5,62..66,126..129,N+3,N+4", "depth": 2, "per_N": wd.perN},
+			"wide_offsets": of.bounds,
+			"readdir":      rd.bounds, "fs_host_filesystem": fastFS, "readdir_host_filesystem": tmpFS,
 		},
 		Extra: map[string]any{
 			"descriptor_keeps_object_histories": dr.histories, "awkward_names_executions": nm.executions, "awkward_names_states": nm.states,
+			"wide_offsets_executions": of.executions, "wide_offsets_states": of.states, "wide_offsets_transitions": of.transitions,
 			"wide_table_words": wd.words, "wide_table_states": wd.states,
 			"fs_transitions_also_executed_primed": st.primed, "fs_descriptor_table_variant_executions": st.tableRuns, "readdir_mutation_cases": rd.mutated,
 			"fs_transitions_outside_model": st.outside, "fs_transitions_with_mismatch": st.pruned,
